@@ -257,7 +257,7 @@ func main() {
 		if n == 0 {
 			d = "0"
 		}
-		add([]string{fmt.Sprintf("ar arity %d", n), "ar new 0 pool", "ar new 0", "ar hook 0 0 inplace", "ar hook 0 0 pool", "ar hook 0 0", "ar hook 0 2 inplace", "ar hook 1 0", "ar hook 1 0 pool",
+		add([]string{fmt.Sprintf("ar arity %d", n), "ar new 0 pre pool", "ar new 0 pre", "ar hook 0 0 inplace pre", "ar hook 0 0 pool", "ar hook 0 0 pre", "ar hook 0 2 inplace", "ar hook 1 0", "ar hook 1 0 pool pre",
 			"ar link 1 0", "ar trigger 0 " + d, "ar trigger 0 " + d, "ar trigger 1 " + d, "ar unlink 1", "ar trigger 0 " + d})
 	}
 	add([]string{"mn 0 0 3 1 0", "mn 2 1 4 0 0 1", "mn 0 0 2 2", "mn 1 0 5 0", "mn 0 2 3 3 1 2 0",
